@@ -82,6 +82,10 @@ CLAIMED = {
          "Exploration by runtime monitoring: generated class hierarchies (up to 10 classes, up to 3 parents, diamonds, every 4th graph cyclic incl. cyclic aliases, classes split over files, class tables with methods and assigned members) and variables typed through a class, aliases of aliases, T[], table<K,V> and aliased arrays; go-to-definition on v.member must reach the ---@field line of the declaring (possibly inherited) class, and after editing the open document to end in `v.` completion with trigger '.' must return exactly the transitive field set plus the documented assigned members (superset for cyclic graphs); every query on cyclic graphs/aliases must return and the server must stay alive.",
          "Field names are unique per class graph (no overriding), one definition per class name (duplicates are C09's). Union types are not asserted.",
          "DESIGN.md 3/C15"),
+ "C16": ("offline-style monitor in a worker process linking LuaHelper's own annotation parser: understood structure vs an independent model of the documented grammar (R-anno) + print/re-read round trip; end-to-end type-18 / hover observations through the server",
+         "Exploration by runtime monitoring: tens of thousands of annotation lines derived from the grammar documented in docs/manual/annotate.md (type, class, field, param, return, alias, generic, overload, vararg; unions, arrays, table<K,V>, fun types, parentheses, optional markers, trailing @comments; type depth up to 4) are parsed by LuaHelper's annotation parser inside a child process (a panic is observed, not fatal to the monitor); the structure it understood is dumped and compared with the S-expression of an independent grammar model, and printable types are printed with TypeConvertStr and parsed again. End-to-end: conformant lines in real files get no type-18 diagnostic; one clearly malformed line may only add type-18 diagnostics on that line, must not change diagnostics elsewhere nor the hover of a neighbouring annotated variable, and must not take the server down.",
+         "fun types with a return list are parenthesised wherever the documented grammar is ambiguous (nested in unions, parameter lists, table<>, type lists). fun types are excluded from the round trip (printed as function(...)).",
+         "DESIGN.md 3/C16"),
 }
 
 PENDING_REASON = "check not built yet in this revision of /verif (work in progress; see DESIGN.md section 3 for the planned monitor)"
